@@ -19,7 +19,7 @@ package clusterinfo
 
 //@ func (c *ClusterInfo) GetLookupdTopics(lookupdHTTPAddrs []string) ([]string, error)
 //@   props C18
-//@   requires c != nil
+//@   requires c != nil && c.client != nil
 //@   ensures[partial-count] result0 != nil ==> ipartialCount(result1, len(lookupdHTTPAddrs))
 //@   ensures[shape] result1 == nil || ipartial(result1) || result0 == nil
 // (round 5, area H) what the topic look-up returned is recorded (r5HTopicsErr: error of the most recent GetLookupdTopics / GetNSQDTopics call)
@@ -27,13 +27,13 @@ package clusterinfo
 
 //@ func (c *ClusterInfo) GetLookupdTopicChannels(topic string, lookupdHTTPAddrs []string) ([]string, error)
 //@   props C18
-//@   requires c != nil
+//@   requires c != nil && c.client != nil
 //@   ensures[partial-count] result0 != nil ==> ipartialCount(result1, len(lookupdHTTPAddrs))
 //@   ensures[shape] result1 == nil || ipartial(result1) || result0 == nil
 
 //@ func (c *ClusterInfo) GetLookupdProducers(lookupdHTTPAddrs []string) (Producers, error)
 //@   props C18
-//@   requires c != nil
+//@   requires c != nil && c.client != nil
 //@   ensures[partial-count] result0 != nil ==> ipartialCount(result1, len(lookupdHTTPAddrs))
 //@   ensures[shape] result1 == nil || ipartial(result1) || result0 == nil
 // (round 4, area D) no POST is issued by the look-up; what it returned is recorded (r4DNP*: most recent all-producers look-up).
@@ -51,7 +51,7 @@ package clusterinfo
 
 //@ func (c *ClusterInfo) GetLookupdTopicProducers(topic string, lookupdHTTPAddrs []string) (Producers, error)
 //@   props C18
-//@   requires c != nil
+//@   requires c != nil && c.client != nil
 //@   ensures[partial-count] result0 != nil ==> ipartialCount(result1, len(lookupdHTTPAddrs))
 //@   ensures[shape] result1 == nil || ipartial(result1) || result0 == nil
 // (round 4, area D) no POST is issued by the look-up; what it returned is recorded for the callers' contracts (r4DTP*: most recent
@@ -67,7 +67,7 @@ package clusterinfo
 
 //@ func (c *ClusterInfo) GetNSQDTopics(nsqdHTTPAddrs []string) ([]string, error)
 //@   props C18
-//@   requires c != nil
+//@   requires c != nil && c.client != nil
 //@   ensures[partial-count] result0 != nil ==> ipartialCount(result1, len(nsqdHTTPAddrs))
 //@   ensures[shape] result1 == nil || ipartial(result1) || result0 == nil
 // (round 5, area H) what the topic look-up returned is recorded (r5HTopicsErr: error of the most recent GetLookupdTopics / GetNSQDTopics call)
@@ -75,7 +75,7 @@ package clusterinfo
 
 //@ func (c *ClusterInfo) GetNSQDProducers(nsqdHTTPAddrs []string) (Producers, error)
 //@   props C18
-//@   requires c != nil
+//@   requires c != nil && c.client != nil
 //@   ensures[partial-count] result0 != nil ==> ipartialCount(result1, len(nsqdHTTPAddrs))
 //@   ensures[shape] result1 == nil || ipartial(result1) || result0 == nil
 // (round 4, area D) no POST is issued by the look-up; what it returned is recorded (r4DNP*: most recent all-producers look-up).
@@ -89,7 +89,7 @@ package clusterinfo
 
 //@ func (c *ClusterInfo) GetNSQDTopicProducers(topic string, nsqdHTTPAddrs []string) (Producers, error)
 //@   props C18
-//@   requires c != nil
+//@   requires c != nil && c.client != nil
 //@   ensures[partial-count] result0 != nil ==> ipartialCount(result1, len(nsqdHTTPAddrs))
 //@   ensures[shape] result1 == nil || ipartial(result1) || result0 == nil
 // (round 4, area D) no POST is issued by the look-up; what it returned is recorded for the callers' contracts (r4DTP*: most recent
@@ -106,7 +106,7 @@ package clusterinfo
 // GetNSQDStats: "data" = the topic list or the channel map.
 //@ func (c *ClusterInfo) GetNSQDStats(producers Producers, selectedTopic string, selectedChannel string, includeClients bool) ([]*TopicStats, map[string]*ChannelStats, error)
 //@   props C18
-//@   requires c != nil
+//@   requires c != nil && c.client != nil
 //@   ensures[partial-count] result0 != nil || result1 != nil ==> ipartialCount(result2, len(producers))
 //@   ensures[shape] result2 == nil || ipartial(result2) || (result0 == nil && result1 == nil)
 // (round 5, area H) the channel map and the error handed back are recorded (r5HStatsMap / r5HStatsErr: results of the most recent call, r5HStatsCalls: number of calls) so that a caller's loop
